@@ -11,6 +11,7 @@ from ..core import (
     walk_local,
     calls_in,
     block_raises,
+    strip_docstring,
 )
 from ..cfg import cfg_of
 
@@ -47,46 +48,91 @@ def run(prog, rep, tier):
     rep.floor("R17.5", 10)
 
 
-def _width_expr_of(node, arr):
-    """node computes `<arr>.shape[1] if <arr>.ndim == 2 else 1` (IfExp or if/else)"""
-    if isinstance(node, ast.IfExp):
-        return (
-            unparse(node.body) == f"{arr}.shape[1]"
-            and unparse(node.test) in (f"{arr}.ndim == 2", f"2 == {arr}.ndim", f"{arr}.ndim > 1")
-            and unparse(node.orelse) == "1"
-        )
-    return False
-
-
-def _delta_def(loop, arr):
-    """find the definition of the width variable inside the loop: returns (varname, ok)"""
-    for s in loop.body:
-        if isinstance(s, ast.Assign) and isinstance(s.targets[0], ast.Name) and _width_expr_of(s.value, arr):
-            return s.targets[0].id, True
-        if isinstance(s, ast.If) and unparse(s.test) in (f"{arr}.ndim == 2", f"{arr}.ndim > 1") and len(s.body) == 1 and len(s.orelse) == 1:
-            b, e = s.body[0], s.orelse[0]
-            if (isinstance(b, ast.Assign) and isinstance(e, ast.Assign) and unparse(b.targets[0]) == unparse(e.targets[0])
-                    and unparse(b.value) == f"{arr}.shape[1]" and unparse(e.value) == "1"):
-                return unparse(b.targets[0]), True
-    return None, False
+def _fresh_instance_var(f):
+    """the local bound to a fresh instance of the matrix class over the same terms (prediction): name or None"""
+    for st in walk_local(f.node):
+        if isinstance(st, ast.Assign) and len(st.targets) == 1 and isinstance(st.targets[0], ast.Name) and isinstance(st.value, ast.Call):
+            if unparse(st.value.func) in ("self.__class__", "type(self)", f.cls.name if f.cls else ""):
+                return st.targets[0].id, st
+    return None, None
 
 
 def _site(prog, rep, q, container, stacked_kind):
+    """One slice-building loop, decided by symbolic evaluation of the loop body (sa/symexec.py): whatever the temporaries are
+    called and however the arithmetic is spelled, the stored slice must be slice(S, S + W), the offset must become S + W, S
+    must be 0 on entry, and W must be the column count of the very block that is stacked in that iteration."""
+    from .. import symexec as SX
+
     f = prog.fn(q)
-    c = cfg_of(f)
-    loops = [n for n in walk_local(f.node) if isinstance(n, ast.For)]
-    loops = [lp for lp in loops if any(isinstance(s, ast.Assign) and isinstance(s.targets[0], ast.Subscript)
-                                       and unparse(s.targets[0].value) == f"{container}.slices" for s in ast.walk(lp))]
+    if container is None:
+        container, _ = _fresh_instance_var(f)
+        if container is None:
+            raise AnalysisError(f"{q}: no fresh instance of the matrix class is created")
+    body = strip_docstring(f.node.body)
+    loops = [n for n in body if isinstance(n, ast.For)]
+    loops = [lp for lp in loops if any(isinstance(st, ast.Assign) and isinstance(st.targets[0], ast.Subscript)
+                                       and unparse(st.targets[0].value) == f"{container}.slices" for st in ast.walk(lp))]
     if len(loops) != 1:
         raise AnalysisError(f"{q}: expected exactly one loop storing into {container}.slices, found {len(loops)}")
     lp = loops[0]
-    tv = unparse(lp.target)
-    it = unparse(lp.iter)
-    # (a) start = 0 before the loop
-    inits = [s for s in walk_local(f.node) if isinstance(s, ast.Assign) and unparse(s.targets[0]) == "start" and not any(s is x for x in ast.walk(lp))]
-    ok = len(inits) == 1 and unparse(inits[0].value) == "0" and c.dominates(c.node_of(inits[0]), c.node_of(lp))
-    obl(rep, f, inits[0] if inits else lp, "R17.1", ok, "offset starts at 0 before the loop", "",
-        f"`start` is initialised by {[unparse(s) for s in inits]}: slices do not start at column 0")
+    if not isinstance(lp.target, ast.Name):
+        raise AnalysisError(f"{q}: the slice loop does not iterate over single terms (`for {unparse(lp.target)} in ...`)")
+    tv = lp.target.id
+    # state before the loop
+    pre = SX.SymExec()
+    for st in body[:body.index(lp)]:
+        try:
+            pre.step(st)
+        except AnalysisError:
+            for n in ast.walk(st):
+                if isinstance(n, ast.Name) and isinstance(n.ctx, ast.Store):
+                    pre.env[n.id] = SX.Opaque(f"<{n.id} after {type(st).__name__}>")
+    it = pre.text(lp.iter)
+    carried = {n.id for n in ast.walk(lp) if isinstance(n, ast.Name) and isinstance(n.ctx, ast.Store)} - {tv}
+    env_in = dict(pre.env)
+    env_in.pop(tv, None)
+    for v in carried:
+        env_in[v] = SX.atom(f"{v}@in")
+    # `if c: ...; continue` + rest  ==  `if c: ... else: rest`: bring the body into if/else form first
+    import copy as _copy0
+    from ..canon import _else_form
+
+    lbody = _else_form(_copy0.deepcopy(lp.body))
+
+    def drop_continue(stmts):
+        out = [x for x in stmts if not isinstance(x, ast.Continue)] if stmts and isinstance(stmts[-1], ast.Continue) else list(stmts)
+        for x in out:
+            if isinstance(x, ast.If):
+                x.body = drop_continue(x.body) or [ast.Pass()]
+                x.orelse = drop_continue(x.orelse)
+        return out
+
+    lbody = drop_continue(lbody)
+    try:
+        ex = SX.SymExec(env_in).run(lbody)
+    except AnalysisError as e:
+        raise AnalysisError(f"{q}: {e}")
+    stores = [e for e in ex.effects if e[0] == "store" and e[1][0] == f"{container}.slices"]
+    ok = len(stores) == 1 and stores[0][2] == () and stores[0][1][1] == f"{tv}.name"
+    obl(rep, f, stores[0][1][3] if stores else lp, "R17.1", ok,
+        f"{container}.slices[{tv}.name] is stored exactly once, unconditionally, on every iteration", "",
+        f"slice stores in the loop: {[(e[1][1], [c for c in e[2]]) for e in stores]}")
+    val = stores[0][1][2] if stores else None
+    ok = isinstance(val, SX.Slice)
+    S = None
+    if ok:
+        lo = val.lo
+        ok = isinstance(lo, SX.Lin) and lo.c == 0 and len(lo.t) == 1 and list(lo.t.values()) == [1] and list(lo.t)[0].endswith("@in")
+        if ok:
+            S = list(lo.t)[0][:-3]
+    obl(rep, f, stores[0][1][3] if stores else lp, "R17.1", ok,
+        "the stored slice starts at the running offset (a variable carried from one iteration to the next)",
+        f"offset variable `{S}`", f"stored value is `{SX.render(val) if val is not None else '?'}`")
+    W = SX.add(val.hi, val.lo, -1) if isinstance(val, SX.Slice) else None
+    # (a) offset is 0 on entry
+    init = pre.env.get(S) if S else None
+    obl(rep, f, lp, "R17.1", init == SX.Lin(0), "offset starts at 0 before the loop", f"`{S}` = {SX.render(init) if init is not None else '?'}",
+        f"the offset `{S}` is `{SX.render(init) if init is not None else 'undefined'}` when the loop starts: slices do not start at column 0")
     # (b) stacking uses the same collection in the same order
     stacks = [x for x in calls_in(f.node) if dotted(x.func) == "np.column_stack"]
     if len(stacks) != 1:
@@ -95,21 +141,30 @@ def _site(prog, rep, q, container, stacked_kind):
     arr = None
     ok = False
     why = ""
-    if isinstance(arg, ast.ListComp) and len(arg.generators) == 1 and not arg.generators[0].ifs:
+    if isinstance(arg, ast.Name) and arg.id in pre.env and not (pre.env[arg.id] == SX.Opaque("[]")):
+        # a list built before the loop by a comprehension
+        d = [st for st in body if isinstance(st, ast.Assign) and unparse(st.targets[0]) == arg.id]
+        if len(d) == 1 and isinstance(d[0].value, ast.ListComp):
+            arg = d[0].value
+    if isinstance(arg, ast.ListComp) and len(arg.generators) == 1 and not arg.generators[0].ifs and isinstance(arg.generators[0].target, ast.Name):
         g = arg.generators[0]
-        ok = unparse(g.iter) == it
-        arr_elt = unparse(arg.elt).replace(unparse(g.target) + ".", tv + ".") if unparse(g.target) != tv else unparse(arg.elt)
-        arr = arr_elt
+        ok = pre.text(g.iter) == it
+        import copy as _copy
+        elt = _copy.deepcopy(arg.elt)
+        for n in ast.walk(elt):
+            if isinstance(n, ast.Name) and n.id == g.target.id:
+                n.id = tv
+        arr = unparse(elt)
         why = f"column_stack([{unparse(arg.elt)} for {unparse(g.target)} in {unparse(g.iter)}]) vs loop over {it}"
     elif isinstance(arg, ast.Name):
         # list appended inside the same loop
-        apps = [x for x in calls_in(lp) if unparse(x.func) == f"{arg.id}.append"]
-        init = [s for s in walk_local(f.node) if isinstance(s, ast.Assign) and unparse(s.targets[0]) == arg.id and unparse(s.value) == "[]"]
-        ok = len(apps) == 1 and len(init) == 1 and any(s is apps[0] or (isinstance(s, ast.Expr) and s.value is apps[0]) for s in lp.body)
-        arr = unparse(apps[0].args[0]) if apps else None
+        apps = [e for e in ex.effects if e[0] == "call" and e[1][0] == f"{arg.id}.append"]
+        ok = len(apps) == 1 and apps[0][2] == () and pre.env.get(arg.id) == SX.Opaque("[]")
+        arr = SX.render(apps[0][1][1][0]) if apps and apps[0][1][1] else None
         why = f"{arg.id} is filled once per iteration of the loop over {it}"
-        # all appends to the list happen in this loop only
-        ok = ok and len([x for x in calls_in(f.node) if unparse(x.func) in (f"{arg.id}.append", f"{arg.id}.insert", f"{arg.id}.extend")]) == 1
+        # all growth of the list happens in this loop only
+        grow = [x for x in calls_in(f.node, local=False) if unparse(x.func) in (f"{arg.id}.append", f"{arg.id}.insert", f"{arg.id}.extend")]
+        ok = ok and len(grow) == 1
     obl(rep, f, stacks[0], "R17.1", ok, "the stacked blocks are produced by the same iteration, in the same order, as the slices",
         why, f"stacking order and slice order can differ: {why}")
     if arr is None:
@@ -119,49 +174,33 @@ def _site(prog, rep, q, container, stacked_kind):
         okk = arr == f"{tv}.data"
         obl(rep, f, stacks[0], "R17.1", okk, f"training: the block stacked for a term is {tv}.data", arr)
     else:
-        defs = [s for s in lp.body if isinstance(s, ast.Assign) and unparse(s.targets[0]) == arr]
-        okk = len(defs) == 1 and unparse(defs[0].value) == f"{tv}.eval_new_data(data)"
-        obl(rep, f, defs[0] if defs else lp, "R17.1", okk,
-            f"prediction: the block stacked for a term is the freshly evaluated {tv}.eval_new_data(data)", arr,
-            f"the block stacked at prediction is `{arr}` = {[unparse(d.value) for d in defs]}")
-    # (e) delta is the width of that very array
-    dv, okd = _delta_def(lp, arr)
-    obl(rep, f, lp, "R17.1", okd, f"delta = columns of `{arr}` (1 for a 1-D block)", f"delta variable `{dv}`",
-        f"no definition `delta = {arr}.shape[1] if {arr}.ndim == 2 else 1` in the loop: slice widths are not the widths of the stacked blocks")
-    dv = dv or "delta"
-    # (c) stored slice
-    stores = [s for s in lp.body if isinstance(s, ast.Assign) and isinstance(s.targets[0], ast.Subscript)
-              and unparse(s.targets[0].value) == f"{container}.slices"]
-    ok = len(stores) == 1 and unparse(stores[0].targets[0].slice) == f"{tv}.name"
-    val = None
-    if ok:
-        val = stores[0].value
-        if isinstance(val, ast.Name):
-            d2 = [s for s in lp.body if isinstance(s, ast.Assign) and unparse(s.targets[0]) == val.id]
-            val = d2[0].value if len(d2) == 1 else None
-        ok = val is not None and unparse(val) == f"slice(start, start + {dv})"
-    obl(rep, f, stores[0] if stores else lp, "R17.1", ok,
-        f"{container}.slices[{tv}.name] = slice(start, start + {dv}) on every iteration (top-level statement of the loop)",
-        "", f"stored slice is `{unparse(val) if val is not None else '?'}`")
-    # (d) start += delta after the store, unconditionally; no continue/break
-    incs = [s for s in lp.body if isinstance(s, ast.AugAssign) and unparse(s.target) == "start" and isinstance(s.op, ast.Add)]
-    ok = len(incs) == 1 and unparse(incs[0].value) == dv and bool(stores) and lp.body.index(incs[0]) > lp.body.index(stores[0])
-    other_writes = [s for s in ast.walk(lp) if isinstance(s, (ast.Assign, ast.AugAssign)) and s not in incs
-                    and any(unparse(t) == "start" for t in (s.targets if isinstance(s, ast.Assign) else [s.target]))]
-    ok = ok and not other_writes
-    obl(rep, f, incs[0] if incs else lp, "R17.1", ok, f"start += {dv} follows the store unconditionally (only writer of start in the loop)",
-        "", f"offset update is {[unparse(s) for s in incs + other_writes]}: slices overlap or leave gaps")
-    jumps = [n for n in ast.walk(lp) if isinstance(n, (ast.Continue, ast.Break))]
-    obl(rep, f, lp, "R17.1", not jumps, "no continue/break can skip the offset update")
-    return f, lp, it, tv, arr
+        okk = arr == f"{tv}.eval_new_data({f.params[1]})"
+        obl(rep, f, lp, "R17.1", okk,
+            f"prediction: the block stacked for a term is the freshly evaluated {tv}.eval_new_data({f.params[1]})", arr,
+            f"the block stacked at prediction is `{arr}`")
+    # (e) width of the slice == columns of that very block
+    okd = W is not None and SX.width_of(W, arr)
+    obl(rep, f, lp, "R17.1", okd, f"slice width = columns of `{arr}` (1 for a 1-D block)", SX.render(W) if W is not None else "",
+        f"slice width is `{SX.render(W) if W is not None else '?'}`, not `{arr}.shape[1] if {arr}.ndim == 2 else 1`: "
+        "slice widths are not the widths of the stacked blocks")
+    # (d) the offset advances by exactly that width
+    end = ex.env.get(S) if S else None
+    want = SX.add(val.lo, W) if (isinstance(val, SX.Slice) and W is not None) else None
+    obl(rep, f, lp, "R17.1", end is not None and want is not None and end == want,
+        "the offset advances by exactly the slice width on every iteration", f"`{S}` becomes {SX.render(end) if end is not None else '?'}",
+        f"after one iteration the offset is `{SX.render(end) if end is not None else '?'}` but the slice ended at "
+        f"`{SX.render(val.hi) if isinstance(val, SX.Slice) else '?'}`: slices overlap or leave gaps")
+    jumps = [n for n in ast.walk(lp) if isinstance(n, (ast.Break, ast.Return))]
+    obl(rep, f, lp, "R17.1", not jumps, "no break/return leaves the loop before every term has its slice")
+    return f, lp, it, tv, arr, container
 
 
 def r17_1(prog, rep):
     _site(prog, rep, "matrices.CommonEffectsMatrix.evaluate", "self", "training")
     _site(prog, rep, "matrices.GroupEffectsMatrix.evaluate", "self", "training")
-    f, lp, it, tv, arr = _site(prog, rep, "matrices.GroupEffectsMatrix.evaluate_new_data", "new_instance", "prediction")
+    f, lp, it, tv, arr, nv = _site(prog, rep, "matrices.GroupEffectsMatrix.evaluate_new_data", None, "prediction")
     # the new instance is a fresh object of the same class over the same terms; it gets its own slices dict
-    ni = [s for s in walk_local(f.node) if isinstance(s, ast.Assign) and unparse(s.targets[0]) == "new_instance"]
+    ni = [s for s in walk_local(f.node) if isinstance(s, ast.Assign) and unparse(s.targets[0]) == nv]
     ok = len(ni) == 1 and unparse(ni[0].value) in ("self.__class__(self.terms.values())", "type(self)(self.terms.values())",
                                                       "GroupEffectsMatrix(self.terms.values())")
     obl(rep, f, ni[0] if ni else f.node, "R17.1", ok, "the new matrix is a fresh instance over the same terms (own slices dict from __init__)")
@@ -178,11 +217,11 @@ def r17_1(prog, rep):
     sl2 = [s for s in walk_local(ci.node) if isinstance(s, ast.Assign) and is_self_attr(s.targets[0], "slices")]
     obl(rep, ci, sl2[0] if sl2 else ci.node, "R17.1", len(sl2) == 1 and unparse(sl2[0].value) == "{}",
         "CommonEffectsMatrix.__init__ creates an empty slices dict per instance", "", "CommonEffectsMatrix.slices is not created per instance in __init__")
-    aliased = [s for s in walk_local(f.node) if isinstance(s, ast.Assign) and unparse(s.targets[0]) == "new_instance.slices"]
+    aliased = [s for s in walk_local(f.node) if isinstance(s, ast.Assign) and unparse(s.targets[0]) == f"{nv}.slices"]
     obl(rep, f, aliased[0] if aliased else f.node, "R17.1", not aliased,
         "the group matrix never aliases the training slices (widths may change with new groups)", "",
         "new_instance.slices is re-bound: stores would corrupt or bypass the rebuilt slices")
-    dms = [s for s in walk_local(f.node) if isinstance(s, ast.Assign) and unparse(s.targets[0]) == "new_instance.design_matrix"]
+    dms = [s for s in walk_local(f.node) if isinstance(s, ast.Assign) and unparse(s.targets[0]) == f"{nv}.design_matrix"]
     obl(rep, f, dms[0] if dms else f.node, "R17.1", len(dms) == 1 and dotted(getattr(dms[0].value, "func", None)) == "np.column_stack",
         "new_instance.design_matrix is the stacked result")
 
